@@ -257,19 +257,19 @@ class NetworkGraph(AbstractBaseIR):
                                                   nodes=nodes, spreads=spreads, dde_approx=dde_approx,
                                                   buffer_id=f"_g{group_idx}" if group_idx else "")
                         else:
-                            # TODO: sort edges into unique delay/spread combinations and only loop over those
-                            if spreads:
-                                for i, (edge, delay, spread, node) in enumerate(zip(group, delays, spreads, nodes)):
-                                    self._add_edge_buffer(node_name, op_name, var_name, edges=[edge], delays=[delay],
-                                                          nodes=[node], spreads=[spread], dde_approx=dde_approx,
-                                                          buffer_id=f"_out{n_out + i}")
-                            else:
-                                for i, (edge, delay, node) in enumerate(zip(group, delays, nodes)):
-                                    if not delay and not dde_approx:
-                                        continue  # undelayed edge: keeps reading the source variable itself
-                                    self._add_edge_buffer(node_name, op_name, var_name, edges=[edge], delays=[delay],
-                                                          nodes=[node], dde_approx=dde_approx,
-                                                          buffer_id=f"_out{n_out + i}")
+                            # every edge gets a buffer of its own, with one slot per connection that the edge combines
+                            # (parallel connections between the same two variables form a single edge)
+                            offset = 0
+                            for i, (edge, node) in enumerate(zip(group, nodes)):
+                                n_slots = max(len(node), 1)
+                                edge_delays = delays[offset:offset + n_slots]
+                                edge_spreads = spreads[offset:offset + n_slots] if spreads else None
+                                offset += n_slots
+                                if not spreads and not dde_approx and not np.sum(edge_delays):
+                                    continue  # undelayed edge: keeps reading the source variable itself
+                                self._add_edge_buffer(node_name, op_name, var_name, edges=[edge], delays=edge_delays,
+                                                      nodes=[node], spreads=edge_spreads, dde_approx=dde_approx,
+                                                      buffer_id=f"_out{n_out + i}")
                     n_out += len(group)
 
         # go through nodes again, and collect and process all inputs to each node variable
